@@ -61,7 +61,13 @@ class RoundTrip(Obligation):
                   'with':b.variant('Artifact',['Materials','Products'][run.pick(2,'with')]),'in_dst':some(self.S(run,'dst','e',KW)) if shape in (2,3) else none(),'from':self.S(run,'from','t',KW)}
             return b.variant('ArtifactRule','Match',[vals[n] for n in self.eng.src.enum_payload['ArtifactRule']['Match']])
         if w=='command': return Agg('Command',[VecO([self.S(run,'a0','sh'),mk_string('-c')][:1+run.pick(2,'n')])])
-        if w=='keyid': return b.keyid(pool_keyid(0))
+        if w=='keyid':
+            # any 64-byte text is a key id: one free ASCII byte (upper-case letters, punctuation ...) in front of 63 hex digits
+            k=run.pick(3,'keyid_shape')
+            if k==0: return b.keyid(pool_keyid(0))
+            c=z3.BitVec('kid_c',8); run.add(z3.ULT(c,0x80))
+            hx=list(pool_keyid(0).encode())
+            return Agg('KeyId',[StringO([c]+hx[1:] if k==1 else hx[:-1]+[c])])
         if w=='vpath': return Agg('VirtualTargetPath',[self.S(run,'p','a/b')])
         if w=='keytype': return b.variant('KeyType',['Ed25519','Rsa','Ecdsa'][run.pick(3,'kt')])
         if w=='hashvalue': return Agg('HashValue',[u8vec([z3.BitVec('h0',8),z3.BitVec('h1',8)][:run.pick(3,'n')])])
